@@ -103,9 +103,17 @@ def run_distance(seed):
         f = getattr(D, fn, None)
         if f is None: continue
         try:
-            i, v = f(xi, xd, yi, yd)
+            i, v = f(xi.copy(), xd.copy(), yi.copy(), yd.copy())
             res[fn] = [[int(a) for a in i], [float(a) for a in v]]
         except Exception as e: res[fn] = exc(e)
+        # degenerate encodings of the helpers' domain: one or both vectors without stored entries
+        ei, ed = np.zeros(0, dtype=np.int32), np.zeros(0, dtype=np.float32)
+        for tag, args in (("_empty_left", (ei, ed, yi.copy(), yd.copy())), ("_empty_right", (xi.copy(), xd.copy(), ei, ed)),
+                          ("_empty_both", (ei.copy(), ed.copy(), ei.copy(), ed.copy()))):
+            try:
+                i, v = f(*args)
+                res[fn + tag] = [[int(a) for a in i], [float(a) for a in v]]
+            except Exception as e: res[fn + tag] = exc(e)
     return {"estimator": "distances", "seed": seed, "x": x.tolist(), "y": y.tolist(), "res": res}
 
 cases = json.load(open(sys.argv[1]))
